@@ -45,8 +45,11 @@ CHECKS = {
              "history of assignments; a wrong-length shape is rejected by either setter with state unchanged, so the stored shape has one "
              "entry per pixel axis after ANY history) and over utils._toindex (nearest pixel "
              "centre, ties up, for every rational; binary64 instance swept on all 1/8 multiples |x|<=256). Regenerated code is run "
-             "inside Coq against the implementation; dims/bounds/separability are checked by a property oracle over WCS families.",
-        ref="5 C13", technique="Coq proof over model regenerated from source by translator + vm_compute correspondence"),
+             "inside Coq against the implementation; dims/bounds are checked by a property oracle over WCS families. The correlation-matrix "
+             "clause is a theorem (Separable.v: correlation_matrix_sound, by induction over compound transform expressions; a False entry means "
+             "the world coordinate never changes with that pixel coordinate), its matrix model compared entry by entry, and its evaluation on "
+             "integer-valued transforms exactly, with axis_correlation_matrix / forward evaluation of random compound transforms.",
+        ref="5 C13", technique="Coq proof over model regenerated from source by translator + hand model of the separability matrix + vm_compute correspondence"),
     "C17": dict(
         text="Theorem ok_sound over an effect-skeleton language with an adversarial oracle (every branch, loop count and raising call): "
              "if every write to a global kind (numpy error state / warnings filters / print options) is under a context manager of that "
@@ -165,8 +168,11 @@ CHECKS = {
              "degenerate_cdelt, naxis_covers, pc_row_selects_axis (the PC row of a tabulated axis is the unit vector of its image axis, degenerate "
              "axes included). Tied by AST pins and by comparing NAXISi/CRPIXi/node counts of every exported header with "
              "the model evaluated in Coq; the exported (header, table) is loaded into wcslib and evaluated at EVERY node and random "
-             "in-box points against the WCS. PARTIAL between nodes (interpolation error tested).",
-        ref="5 C11", technique="Coq proof over rationals (hand model) + AST pins + header correspondence + wcslib differential"),
+             "in-box points against the WCS. The physical type -> CTYPE inversion (Ctype.v: ctype_maps_back, one_name_per_type, "
+             "ctype_is_designated_or_first, for every table; premises computed in Coq on astropy's table) is compared with "
+             "_ucd1_to_ctype_name_mapping on astropy's and random tables, and CTYPEk of every exported header with the declared physical type. "
+             "PARTIAL between nodes (interpolation error tested).",
+        ref="5 C11", technique="Coq proof over rationals and association lists (hand models) + AST pins + header/table correspondence + wcslib differential"),
 }
 
 NOT_YET = "check not built yet in this session (work in progress; see DESIGN.md section 10 build order)"
